@@ -264,6 +264,33 @@ pub fn decode(b: &[u8]) -> Result<Decoded, String> {
             _ => v.push("tRNS in an image with alpha channel".into()),
         }
     }
+    // ancillary chunks whose layout depends on the colour type, bit depth or palette
+    if let Some(k) = pos(b"bKGD") {
+        let d = &chunks[k].data;
+        let want = match ct { 3 => 1, 0 | 4 => 2, _ => 6 };
+        if d.len() != want {
+            v.push(format!("bKGD of {} bytes in an image of colour type {} (must be {})", d.len(), ct, want));
+        } else if ct == 3 && d[0] as usize >= palette.len() {
+            v.push("bKGD palette index outside the palette".into());
+        }
+    }
+    if let Some(k) = pos(b"sBIT") {
+        let d = &chunks[k].data;
+        let want = match ct { 0 => 1, 2 | 3 => 3, 4 => 2, _ => 4 };
+        let max = if ct == 3 { 8 } else { depth };
+        if d.len() != want {
+            v.push(format!("sBIT of {} bytes in an image of colour type {} (must be {})", d.len(), ct, want));
+        } else if d.iter().any(|&b| b == 0 || b > max) {
+            v.push("sBIT value outside 1..=sample depth".into());
+        }
+    }
+    if let Some(k) = pos(b"hIST") {
+        if ct != 3 || plte.is_none() {
+            v.push("hIST without a palette".into());
+        } else if chunks[k].data.len() != 2 * palette.len() {
+            v.push(format!("hIST has {} entries, the palette {}", chunks[k].data.len() / 2, palette.len()));
+        }
+    }
     let idat: Vec<u8> = chunks
         .iter()
         .filter(|c| &c.name == b"IDAT")
